@@ -55,6 +55,7 @@ def run(ctx):
     octet_tables(ctx, P)
     c17.s17_1(ctx, P)
     c17.s17_3(ctx, P)
+    c17.partial_emitters(ctx, P)
     c12.seipdv2(ctx, P)
     c12.mdc(ctx, P)
     c03.chunk_nonce(ctx, P)
